@@ -1153,3 +1153,17 @@ M("C13-set-without-recursion", "C13", "R13.2", CP,
 M("C13-leave-when-any-finished", "C13", "R13.4", PD,
   """            all_finished_flag = all(map(lambda task: task.state == BaseTaskState.FINISHED, c.targeted_task_list))""",
   """            all_finished_flag = any(map(lambda task: task.state == BaseTaskState.FINISHED, c.targeted_task_list))""")
+M("C12-join-takes-first-predecessor", "C12", "R12.2b", WF,
+  """                    if est >= pre_est:
+                        next_task.est = est
+                        next_task.eft = eft""",
+  """                    if pre_est == time or est >= pre_est:
+                        next_task.est = est
+                        next_task.eft = eft""")
+M("C12-fork-takes-larger-lst", "C12", "R12.2b", WF,
+  """                    if pre_lft < 0 or pre_lft >= lft:
+                        prev_task.lst = lst
+                        prev_task.lft = lft""",
+  """                    if pre_lft < 0 or pre_lft <= lft:
+                        prev_task.lst = lst
+                        prev_task.lft = lft""")
